@@ -34,25 +34,30 @@ def load_calibration():
 
 def shards(tier, seed):
     out = windows.unconstrained_shards('c02', tier, load_calibration())
-    out += windows.window_shards('c02', tier, seed, per_seed=4)
-    for name, prefix, length in PREFIXES:
+    out += windows.window_shards('c02', tier, seed, per_seed=2)
+    for pidx, (name, prefix, length) in enumerate(PREFIXES):
         if registry.resolve(name) is None:
             continue
         length += 1 if tier == 'thorough' else 0
         short = name.replace('cryptoparser.', '')
-        out.append(Shard(windows.MOD, 'unconstrained', 'prefix/%s/%s' % (short, prefix.hex()[:16]),
+        out.append(Shard(windows.MOD, 'unconstrained', 'prefix/%s/%d' % (short, pidx),
                          {'MODE': 'c02', 'CLASS': name, 'L': length, 'PREFIX': prefix.hex()},
                          timeout=300 if tier == 'thorough' else 60,
                          bounds='%r followed by every byte string of length <= %d' % (prefix, length),
                          group='prefix/%s' % short))
-    # the other entry points share _parse; one window per class through parse_exact_size and parse_mutable
+    # the other entry points share _parse; they differ in the type of the buffer (bytearray) and the exact-size check
     extra = []
     seen = set()
     for shard in out:
-        if shard.fn == 'window1' and shard.params['CLASS'] not in seen and shard.params['POS'] == 0:
-            seen.add(shard.params['CLASS'])
-            for entry in ('parse_exact_size', 'parse_mutable'):
-                extra.append(Shard(windows.MOD, 'window1', shard.label.replace('w/', 'x-%s/' % entry),
+        if shard.fn in ('window1', 'window1a') and shard.params['POS'] == 0:
+            cls = registry.resolve(shard.params['CLASS'])
+            # classes that inherit one and the same _parse are represented once in the quick tier
+            key = shard.params['CLASS'] if tier == 'thorough' else getattr(cls._parse, '__func__', cls._parse)  # pylint: disable=protected-access
+            if key in seen:
+                continue
+            seen.add(key)
+            for entry in ('parse_mutable',) + (('parse_exact_size',) if tier == 'thorough' else ()):
+                extra.append(Shard(windows.MOD, shard.fn, shard.label.replace('w/', 'x-%s/' % entry),
                                    dict(shard.params, ENTRY=entry), timeout=shard.timeout, bounds=shard.bounds +
                                    ' through ' + entry, group='x/' + shard.params['CLASS']))
     return out + extra
